@@ -423,10 +423,18 @@ def check_yaml_dialect(ctx: Ctx):
         def apply(self, fv, args, kwargs, node):
             if isinstance(fv, _YM):
                 if fv.name in ("load", "dump"):
-                    self.root.yaml_calls.append((fv.name, fv.o.typ, fv.o.attrs.get("version", "default"), node))
+                    self.root.yaml_calls.append((fv.name, fv.o.typ, fv.o.attrs.get("version", "default"), node, set(fv.o.attrs.get("_registered", ())), list(args)))
                     return Sym("DATA") if fv.name == "load" else None
+                if fv.name == "register_class" and args:
+                    fv.o.attrs.setdefault("_registered", set()).add(repr(args[0]))
+                    return args[0]
                 return None
             return super().apply(fv, args, kwargs, node)
+
+        def load_global(self, name, node):
+            if name == "supported_helper_classes":
+                return [Sym("HELPER_CLASS")]  # whatever has been registered so far
+            return super().load_global(name, node)
 
     states = {}
     for role, ref in (("load", "utils.config:_load_yaml"), ("dump", "utils.config:_save_yaml")):
@@ -436,7 +444,7 @@ def check_yaml_dialect(ctx: Ctx):
         def make(prefix, f=f):
             args = {}
             for p in f.call_params:
-                args[p.name] = None if "class" in p.name else Sym("ARG_" + p.name)
+                args[p.name] = Sym("REGISTERED_CLASS") if "class" in p.name else Sym("ARG_" + p.name)
             it = YamlInterp(prog, f, args, prefix=prefix)
             it.root.yaml_calls = []
             holder.append(it)
@@ -449,9 +457,15 @@ def check_yaml_dialect(ctx: Ctx):
             return
         st = set()
         for out, it in zip(outs, holder):
-            for nm, typ, ver, node in it.root.yaml_calls:
-                if nm == role:
-                    st.add((repr(typ), repr(ver)))
+            if out.kind == "raise":
+                continue
+            mine = [c for c in it.root.yaml_calls if c[0] == role]
+            if role == "dump":
+                ctx.decide("R19.6", f, out.node or f.node, f"{f.qual}:writes", "saving writes the object to the given file on every path", len(mine) == 1 and len(mine[0][5]) >= 2 and mine[0][5][0] == Sym("ARG_data_dict") and mine[0][5][1] in (Sym("ARG_out_file"), Sym("PATH")), {"dump_calls": len(mine), "args": [repr(a) for c in mine for a in c[5]][:4]})
+            for nm, typ, ver, node, reg, cargs in mine:
+                st.add((repr(typ), repr(ver)))
+                need = {repr(Sym("HELPER_CLASS")), repr(Sym("REGISTERED_CLASS"))}
+                ctx.decide("R19.6", f, node, f"{f.qual}:registered-classes", f"the helper classes and the object's class are registered on the YAML object before {role}", need <= reg, {"registered": sorted(reg)})
         if not st:
             ctx.undecided("R19.6", f, f.node, f"{f.qual}:yaml-object", f"no yaml.{role}(...) call observed")
             return
@@ -514,6 +528,9 @@ _H = "panoptica/utils/edge_case_handling.py"
 _L = "panoptica/utils/label_group.py"
 
 VARIANTS = [
+    Variant("C19-m-loader-yaml11", "R19.6", "mutant", [(_C, "    yaml = YAML(typ=\"safe\")\n    _register_helper_classes(yaml)\n    if registered_class is not None:\n        yaml.register_class(registered_class)\n    yaml.default_flow_style = None\n    data = yaml.load(file)", "    yaml = YAML(typ=\"safe\")\n    yaml.version = (1, 1)\n    _register_helper_classes(yaml)\n    if registered_class is not None:\n        yaml.register_class(registered_class)\n    yaml.default_flow_style = None\n    data = yaml.load(file)")], control=True),
+    Variant("C19-m-loader-no-helpers", "R19.6", "mutant", [(_C, "    yaml = YAML(typ=\"safe\")\n    _register_helper_classes(yaml)\n    if registered_class is not None:\n        yaml.register_class(registered_class)\n    yaml.default_flow_style = None\n    data = yaml.load(file)", "    yaml = YAML(typ=\"safe\")\n    if registered_class is not None:\n        yaml.register_class(registered_class)\n    yaml.default_flow_style = None\n    data = yaml.load(file)")]),
+    Variant("C19-m-name-with-suffix", "R19.7", "mutant", [("panoptica/utils/filepath.py", "    if not name.endswith(\".yaml\"):\n        name += \".yaml\"\n    return directory, name", "    name = str(Path(name).with_suffix(\".yaml\"))\n    return directory, name")]),
     Variant("C19-m-key-dropped", "R19.2", "mutant", [(_M, "            \"matching_threshold\": node._matching_threshold,\n            \"allow_many_to_one\": node._allow_many_to_one,", "            \"matching_threshold\": node._matching_threshold,")], control=True),
     Variant("C19-m-key-renamed", "R19.1", "mutant", [(_M, "            \"allow_many_to_one\": node._allow_many_to_one,", "            \"many_to_one\": node._allow_many_to_one,")]),
     Variant("C19-m-key-crossed", "R19.2", "mutant", [(_E, "            \"log_times\": node.__log_times,\n            \"verbose\": node.__verbose,", "            \"log_times\": node.__verbose,\n            \"verbose\": node.__log_times,")], control=True),
